@@ -470,7 +470,7 @@ idiff_strp(const char *str, char **on, size_t len)
  */
 	size_t i = 0U;
 	echs_idiff_t res = {0};
-	int dd = 0, msd = 0;
+	int64_t dd = 0, msd = 0;
 	bool negp = false;
 	bool seen_D_p = false;
 	bool seen_W_p = false;
@@ -555,15 +555,15 @@ more_time:
 	switch (str[i++] | step) {
 	case 'H':
 		step |= 0x1U;
-		msd += val * 60U * 60U * 1000U;
+		msd += (int64_t)val * 60 * 60 * 1000;
 		goto more_time;
 	case 'M':
 		step |= 0x11U;
-		msd += val * 60U * 1000U;
+		msd += (int64_t)val * 60 * 1000;
 		goto more_time;
 	case 'S':
 		step |= 0x21U;
-		msd += val * 1000U;
+		msd += (int64_t)val * 1000;
 		goto more_time;
 	default:
 		goto out;
@@ -571,7 +571,7 @@ more_time:
 
 out:
 	/* make up the idiff object */
-	res.d = dd * MSECS_PER_DAY + msd;
+	res.d = dd * (int64_t)MSECS_PER_DAY + msd;
 	/* check for negativity, in reality we don't want negative durations
 	 * in our problem domain, ever.  they make no sense */
 	if (negp) {
